@@ -4,7 +4,7 @@ from __future__ import annotations
 import ast
 from typing import Dict, List, Optional
 
-from ..astutil import Inliner, attr_chain, call_name, match, returns_of, set_parents, stmts_of, statement_texts
+from ..astutil import Inliner, ancestors, attr_chain, call_name, match, returns_of, set_parents, stmts_of, statement_texts
 from ..closedform import classify
 from ..core import OK, UNDECIDED, VIOLATION, AnalysisError, ClassInfo, FuncInfo, Repo, Report, unparse
 from ..fecrules import ENC
@@ -80,6 +80,37 @@ def batch_index_taint(rep: Report, fi: FuncInfo) -> int:
     return n
 
 
+def lint_search_early_exit(rep: Report, fi: FuncInfo) -> int:
+    """A complete (nearest-codeword) search may stop early only when nothing better can follow: at distance 0, or within
+    the unique-decoding radius t = (d - 1) // 2.  A `break` under `best < d` (or `<= d - 1`) stops on a codeword at distance
+    up to d - 1 although the transmitted one, at distance <= t, may still lie ahead: the decision then depends on the
+    enumeration order and is not the nearest codeword."""
+    n = 0
+    set_parents(fi.node)
+    for br in [x for x in ast.walk(fi.node) if isinstance(x, ast.Break)]:
+        guards = [a for a in ancestors(br) if isinstance(a, ast.If)]
+        loops = [a for a in ancestors(br) if isinstance(a, (ast.For, ast.While))]
+        if not guards or not loops:
+            continue
+        test = guards[0].test
+        cmps = [c for c in ast.walk(test) if isinstance(c, ast.Compare) and len(c.ops) == 1]
+        dist = [c for c in cmps if "distance" in unparse(c.comparators[0]) or "distance" in unparse(c.left)]
+        n += 1
+        construct = f"{fi.qualname if hasattr(fi, 'qualname') else fi.name}: early exit of the search under `{unparse(test)[:90]}`"
+        zero = [c for c in cmps if isinstance(c.ops[0], ast.Eq) and unparse(c.comparators[0]) in ("0", "0.0")]
+        if dist:
+            c = dist[0]
+            rhs = unparse(c.comparators[0])
+            wrong = (isinstance(c.ops[0], ast.Lt) and rhs in ("self.minimum_distance", "self.encoder.minimum_distance")) or (isinstance(c.ops[0], ast.LtE) and rhs in ("self.minimum_distance - 1", "self.encoder.minimum_distance - 1"))
+            right = (isinstance(c.ops[0], ast.LtE) and rhs.replace(" ", "") in ("(self.minimum_distance-1)//2", "(self.encoder.minimum_distance-1)//2"))
+            rep.shape(right, wrong, "SPECIAL-CASE", fi, construct, "the search stops only within the unique-decoding radius (d - 1) // 2", "the search stops as soon as a codeword closer than the minimum distance d is found: such a codeword is unique only within t = (d - 1) // 2, so a codeword at distance t+1 .. d-1 met first is returned although the transmitted one (at distance <= t) has not been examined yet - the decision is not the nearest codeword and depends on the enumeration order", node=br)
+        elif zero:
+            rep.ok("SPECIAL-CASE", fi, construct, "stops at an exact match (distance 0 cannot be improved)", node=br, nontrivial=False)
+        else:
+            rep.ok("SPECIAL-CASE", fi, construct, "the exit does not depend on a distance bound (not judged)", node=br, nontrivial=False)
+    return n
+
+
 def rule_special_cases(repo: Repo, rep: Report) -> int:
     n = 0
     targets = [
@@ -102,6 +133,7 @@ def rule_special_cases(repo: Repo, rep: Report) -> int:
             from ..speciallint import lint_chunk_local_index
 
             n += lint_chunk_local_index(rep, fi, "SPECIAL-CASE")
+            n += lint_search_early_exit(rep, fi)
     return n
 
 
